@@ -12,7 +12,7 @@
    literals of the generated code that are not identifiers. *)
 From Coq Require Import String List Bool Arith.
 From SM Require Import Ident Ast Front Spec Gir Codegen Sem Dyn Script Static.
-From SM.Lemmas Require Import FrontLemmas FrontTop GirLemmas SemLemmas RefSem SemProps HookTheorems Examples RenameLemmas.
+From SM.Lemmas Require Import FrontLemmas FrontTop GirLemmas SemLemmas RefSem SemProps HookTheorems Examples RenameLemmas FrontRename.
 Import ListNotations.
 Open Scope string_scope.
 Open Scope list_scope.
@@ -40,30 +40,33 @@ Proof.
   rewrite !map_app, !map_map. cbn [fst snd]. reflexivity.
 Qed.
 
-(* a run of a generated method never compares identifiers: they are labels *)
+(* a run of a generated method never compares identifiers: they are labels (one relabelling per
+   namespace: states, events, hooks, variants, methods, fields, accessors -- RenameLemmas.roles) *)
 Theorem C18_method_run_is_natural_in_identifiers :
-  forall (f : ident -> ident) (gm : gmethod) (self : tmachine) (pl : option nat) (w : oracle) (b : option nat),
-  run_method (rn_method f gm) (rn_tm f self) pl (rn_oracle f w) b = rn_out f (run_method gm self pl w b).
+  forall (R : roles) (gm : gmethod) (self : tmachine) (pl : option nat) (w : oracle) (b : option nat),
+  run_method (rn_method R gm) (rn_tm R self) pl (rn_oracle R w) b = rn_out R (run_method gm self pl w b).
 Proof. exact run_method_rn. Qed.
 
-(* the dynamic wrapper compares states, event variants and method names, and only for equality *)
+(* the dynamic wrapper compares states, event names, variants, method names and fields, each within
+   its namespace and only for equality *)
 Theorem C18_dispatch_is_natural_in_identifiers :
-  forall (f : ident -> ident),
-  (forall a b, f a = f b -> a = b) -> f "" = "" -> f "<extracted>" = "<extracted>" ->
+  forall (R : roles),
+  injective (r_st R) -> injective (r_ev R) -> injective (r_var R) -> injective (r_mth R) -> injective (r_fld R) ->
+  r_st R "" = "" -> r_st R "<extracted>" = "<extracted>" ->
   forall (g : gir) (gd : gdyn) (d : dyn),
-  (forall ctx, dyn_new (rn_gir f g) (rn_gdyn f gd) ctx = option_map (rn_dyn f) (dyn_new g gd ctx)) /\
+  (forall ctx, dyn_new (rn_gir R g) (rn_gdyn R gd) ctx = option_map (rn_dyn R) (dyn_new g gd ctx)) /\
   (forall ev pl w b,
-     handle (rn_gir f g) (rn_gdyn f gd) (rn_dyn f d) (f ev) pl (rn_oracle f w) b
-     = rn_hout f (handle g gd d ev pl w b)) /\
-  current_state (rn_gdyn f gd) (rn_dyn f d) = option_map f (current_state gd d) /\
-  (forall v, into_state (f v) (rn_dyn f d)
-             = match into_state v d with inl tm => inl (rn_tm f tm) | inr d' => inr (rn_dyn f d') end) /\
-  (forall a, acc_read (rn_acc f a) (rn_dyn f d) = acc_read a d) /\
-  (forall a v, acc_write (rn_acc f a) (rn_dyn f d) v = (rn_dyn f (fst (acc_write a d v)), snd (acc_write a d v))) /\
-  (forall a v, acc_set (rn_gdyn f gd) (rn_acc f a) (rn_dyn f d) v
-               = (rn_dyn f (fst (acc_set gd a d v)), option_map (rn_derr f) (snd (acc_set gd a d v)))).
+     handle (rn_gir R g) (rn_gdyn R gd) (rn_dyn R d) (r_ev R ev) pl (rn_oracle R w) b
+     = rn_hout R (handle g gd d ev pl w b)) /\
+  current_state (rn_gdyn R gd) (rn_dyn R d) = option_map (r_st R) (current_state gd d) /\
+  (forall v, into_state (r_st R v) (rn_dyn R d)
+             = match into_state v d with inl tm => inl (rn_tm R tm) | inr d' => inr (rn_dyn R d') end) /\
+  (forall a, acc_read (rn_acc R a) (rn_dyn R d) = acc_read a d) /\
+  (forall a v, acc_write (rn_acc R a) (rn_dyn R d) v = (rn_dyn R (fst (acc_write a d v)), snd (acc_write a d v))) /\
+  (forall a v, acc_set (rn_gdyn R gd) (rn_acc R a) (rn_dyn R d) v
+               = (rn_dyn R (fst (acc_set gd a d v)), option_map (rn_derr R) (snd (acc_set gd a d v)))).
 Proof.
-  intros f Hi He Hx g gd d.
+  intros R Hs He Hv Hm Hf H0 Hx g gd d.
   split; [intros ctx; apply dyn_new_rn; assumption|].
   split; [intros ev pl w b; apply handle_rn; assumption|].
   split; [apply current_state_rn; assumption|].
@@ -73,24 +76,53 @@ Proof.
   intros a v; apply acc_set_rn; assumption.
 Qed.
 
-(* the hypotheses are satisfiable by a relabelling that moves every identifier, and the generated
-   program of a renamed definition is the relabelled generated program of the original one (an
-   instance: the example definition with its states, events and hooks prefixed; the case conversions
-   of codegen commute with this relabelling on these names) *)
+(* the front end (parser, hierarchy, transition graph, validation) compares identifiers only for
+   equality and looks at the spelling of a name only to decide whether an event is snake_case:
+   renaming a definition by an injective function that respects that decision yields the same verdict
+   -- the same diagnostic, or the renamed machine IR (FrontRename.rn_machine; the data fields are
+   re-derived from the new state names) *)
+Theorem C18_front_end_is_natural_in_identifiers :
+  forall (f : ident -> ident),
+  injective f -> (forall x, is_snake_case (f x) = is_snake_case x) ->
+  forall d : defn, front (rn_defn f d) = rn_result (rn_machine f) (front d).
+Proof. exact front_rn. Qed.
+
+(* the hypotheses are satisfiable by relabellings that move identifiers *)
+Definition sw : ident -> ident := swap2 "A" "B" "go" "back".
+Lemma sw_involutive x : sw (sw x) = x.
+Proof.
+  unfold sw, swap2.
+  destruct (String.eqb_spec x "A") as [->|N1]; [reflexivity|].
+  destruct (String.eqb_spec x "B") as [->|N2]; [reflexivity|].
+  destruct (String.eqb_spec x "go") as [->|N3]; [reflexivity|].
+  destruct (String.eqb_spec x "back") as [->|N4]; [reflexivity|].
+  apply String.eqb_neq in N1, N2, N3, N4. rewrite N1, N2, N3, N4. reflexivity.
+Qed.
 Example C18_relabelling_exists :
-  (forall a b, prefix_z a = prefix_z b -> a = b) /\ prefix_z "" = "" /\ prefix_z "<extracted>" = "<extracted>" /\
-  prefix_z "Idle" = "zIdle".
-Proof. split; [exact prefix_z_inj|repeat split; reflexivity]. Qed.
+  injective prefix_z /\ prefix_z "" = "" /\ prefix_z "<extracted>" = "<extracted>" /\ prefix_z "Idle" = "zIdle" /\
+  injective sw /\ (forall x, is_snake_case (sw x) = is_snake_case x) /\ sw "A" = "B" /\ sw "go" = "back".
+Proof.
+  split; [exact prefix_z_inj|]. do 3 (split; [reflexivity|]).
+  split; [intros a b H; rewrite <- (sw_involutive a), H; apply sw_involutive|].
+  split; [|split; reflexivity].
+  intros x. unfold sw, swap2.
+  destruct (String.eqb_spec x "A") as [->|_]; [reflexivity|].
+  destruct (String.eqb_spec x "B") as [->|_]; [reflexivity|].
+  destruct (String.eqb_spec x "go") as [->|_]; [reflexivity|].
+  destruct (String.eqb_spec x "back") as [->|_]; reflexivity.
+Qed.
 
 (* ... and on the example program the relabelled dispatch is a real run: nine hook calls, Ok, and
-   the relabelled target state *)
+   the relabelled target state; the renamed example definition is accepted as the renamed machine *)
 Example C18_relabelled_run :
-  let o := handle (rn_gir prefix_z ex_gir) (rn_gdyn prefix_z ex_gdyn) (rn_dyn prefix_z (Build_dyn (Some ex_self)))
+  let R := uniform prefix_z in
+  let o := handle (rn_gir R ex_gir) (rn_gdyn R ex_gdyn) (rn_dyn R (Build_dyn (Some ex_self)))
                   (prefix_z "go") (Some 3) (fun _ => Build_ans ADefault 0) None in
-  ho_res o = HOk /\ length (ho_trace o) = 9 /\ current_state (rn_gdyn prefix_z ex_gdyn) (ho_dyn o) = Some "zD2" /\
+  ho_res o = HOk /\ length (ho_trace o) = 9 /\ current_state (rn_gdyn R ex_gdyn) (ho_dyn o) = Some "zD2" /\
   current_state ex_gdyn (ho_dyn (handle ex_gir ex_gdyn (Build_dyn (Some ex_self)) "go" (Some 3)
-                                        (fun _ => Build_ans ADefault 0) None)) = Some "D2".
-Proof. vm_compute. repeat split; reflexivity. Qed.
+                                        (fun _ => Build_ans ADefault 0) None)) = Some "D2" /\
+  match front (rn_defn sw ex_defn) with Ok m => m_initial m = "B" /\ In "back" (map e_name (m_events m)) | Err _ => False end.
+Proof. vm_compute. repeat split; try reflexivity. left; reflexivity. Qed.
 
 (* the property fails on the current tree for identifiers equal to a generated type parameter: this
    accepted definition names a state `C`, which the header `impl<C> M<C, C>` resolves to the parameter
@@ -126,5 +158,6 @@ Proof. split; vm_compute; reflexivity. Qed.
 Print Assumptions C18_success_does_not_depend_on_hook_names.
 Print Assumptions C18_method_run_is_natural_in_identifiers.
 Print Assumptions C18_dispatch_is_natural_in_identifiers.
+Print Assumptions C18_front_end_is_natural_in_identifiers.
 Print Assumptions C18_refuted_by_generic_parameter_capture.
 Print Assumptions C18_hygienic_characterisation.
